@@ -208,6 +208,8 @@ pub fn eval(input: &str) -> String {
                 return (pk, "NONE");
             }
         };
+        // the OTI the object is sent with (FileDesc::new fills in the scheme-specific part)
+        let wire_oti = fd.oti.clone();
         if let Some(h) = stream_handle {
             // arm the read schedule only now: the reads before (length probe) are not part of it
             unsafe { (*h).armed = true };
@@ -228,14 +230,27 @@ pub fn eval(input: &str) -> String {
             }
             match enc.read(force) {
                 None => return (pk, "NONE"),
-                Some(p) => pk.push(format!(
+                Some(p) => {
+                    // the FEC payload id as it goes on the wire (new_alc_pkt) and comes back (parse_payload_id):
+                    // a symbol number that does not fit its field would be sent under another symbol's number
+                    let wire = flute::verif_hooks::alc::new_alc_pkt(&wire_oti, &0u128, 1, &p, flute::sender::Profile::RFC6726, std::time::UNIX_EPOCH);
+                    match flute::core::alc::parse_alc_pkt(&wire).and_then(|w| flute::core::alc::parse_payload_id(&w, &wire_oti)) {
+                        Ok(pid) => {
+                            if pid.sbn != p.sbn || pid.esi != p.esi {
+                                pk.push(format!("WIRE:{:x}:{:x}:{:x}:{:x}", p.sbn, p.esi, pid.sbn, pid.esi));
+                            }
+                        }
+                        Err(_) => pk.push(format!("WIRE:{:x}:{:x}:unparsable", p.sbn, p.esi)),
+                    }
+                    pk.push(format!(
                     "P:{:x}:{:x}:{}:{:x}:{}",
                     p.sbn,
                     p.esi,
                     if p.close_object { 1 } else { 0 },
                     p.source_block_length,
                     hex(&p.payload)
-                )),
+                    ));
+                }
             }
         }
     });
@@ -332,6 +347,12 @@ fn gen(args: &Args, emit: &mut dyn FnMut(String), streams: bool) {
                 let src = if rng.chance(1, 2) { format!("stream@{:x}", rng.below(c.len() as u64 + 2)) } else { "stream".to_string() };
                 emit(format!("E {} {:x} {:x} {:x} {:x} {} {} {} - {}", fec, e, b, parity, w, closable, src, hex(&c), sched.join(",")));
             }
+        }
+    }
+    // the 16-bit ESI of the Raptor payload id: 4 source symbols with 65532 (all numbers fit) and 65535 parity symbols (refused, D46)
+    if !streams && args.shard.0 == 0 {
+        for par in ["fffc", "ffff", "fffd"] {
+            emit(format!("E raptor 4 4 {} 1 1 buf 0102030405060708090a0b0c0d0e0f10 - -", par));
         }
     }
     // content-encoded objects: buffer and stream must give the same packets (and the same lengths and MD5)
